@@ -701,3 +701,223 @@ theorem rangedVs_ranged_iff (ro : Op) (rv : Ver) (rr : Str) (oo : Op) (ov : Ver)
   · simp [h1]
 
 end Pkgcore.C05
+
+namespace Pkgcore.C05
+open Pkgcore.C01 Pkgcore.C01.Spec Pkgcore.C04 Pkgcore.C04.Spec Pkgcore.C05.Spec Std
+open Pkgcore.C02 (Op Str verHashKey VKey CompK compK)
+
+attribute [local instance] lexOrd
+
+/-! ### `rangedVs`: soundness -/
+
+theorem isGt_of_ranged_not_lt {o : Op} (h : isRanged o = true) (h' : isLtOp o = false) : isGtOp o = true := by
+  cases o <;> simp_all [isRanged, isLtOp, isGtOp]
+
+theorem sat_upper (o : Op) (v : Ver) (r : Str) (x : Pt) (h : isLtOp o = true) (hv : WF v) (hx : WF x.1) :
+    Sat (o, v, r) x ↔ Rel (isStrict o) x (v, r) := by
+  rw [sat_ranged o v r x (by simp [isRanged, h]) hv hx]; simp [h]
+
+theorem sat_lower (o : Op) (v : Ver) (r : Str) (x : Pt) (h : isGtOp o = true) (hv : WF v) (hx : WF x.1) :
+    Sat (o, v, r) x ↔ Rel (isStrict o) (v, r) x := by
+  have hl : isLtOp o = false := by cases o <;> simp_all [isLtOp, isGtOp]
+  rw [sat_ranged o v r x (by simp [isRanged, h]) hv hx]; simp [hl]
+
+theorem rangedVs_sound (ro : Op) (rv : Ver) (rr : Str) (oo : Op) (ov : Ver) (orv : Str)
+    (hro : isRanged ro = true) (hll : (isLtOp ro && isLtOp oo) = false) (hgg : (isGtOp ro && isGtOp oo) = false)
+    (hrv : WF rv) (hov : WF ov)
+    (h : rangedVs (ro, rv, rr) (oo, ov, orv) = true) :
+    Sat (ro, rv, rr) (rangedWitness (ro, rv, rr) (oo, ov, orv)) ∧
+      Sat (oo, ov, orv) (rangedWitness (ro, rv, rr) (oo, ov, orv)) ∧
+      WF (rangedWitness (ro, rv, rr) (oo, ov, orv)).1 := by
+  by_cases hoo : isRanged oo = true
+  · -- two ranges in opposite directions
+    obtain ⟨h1, h2, h3⟩ := (rangedVs_ranged_iff ro rv rr oo ov orv hro hoo hrv hov).mp h
+    simp only [rangedWitness, hoo, if_true]
+    by_cases hA : isLtOp ro = true
+    · have hB : isLtOp oo = false := by simpa [hA] using hll
+      have hBg := isGt_of_ranged_not_lt hoo hB
+      have hAg : isGtOp ro = false := by cases ro <;> simp_all [isLtOp, isGtOp]
+      rw [sat_lower oo ov orv _ hBg hov hrv] at h1
+      rw [sat_upper ro rv rr _ hA hrv hov] at h2
+      have bt : Between (isStrict oo) (isStrict ro) (ov, orv) (rv, rr) :=
+        ⟨h1, h2, fun a b c => by have := h3 b a c.symm; simp only at this ⊢; omega⟩
+      cases hs1 : isStrict ro
+      · rw [hs1] at bt
+        simp only [Bool.not_false, if_true]
+        have := between_upper_end _ _ _ bt
+        exact ⟨(sat_upper ro rv rr _ hA hrv hrv).mpr (by rw [hs1]; exact this.2),
+          (sat_lower oo ov orv _ hBg hov hrv).mpr this.1, hrv⟩
+      · cases hs2 : isStrict oo
+        · rw [hs2] at bt
+          simp only [Bool.not_true, Bool.false_eq_true, if_false, Bool.not_false, if_true]
+          have := between_lower_end _ _ _ bt
+          exact ⟨(sat_upper ro rv rr _ hA hrv hov).mpr this.2,
+            (sat_lower oo ov orv _ hBg hov hov).mpr (by rw [hs2]; exact this.1), hov⟩
+        · rw [hs1, hs2] at bt
+          simp only [Bool.not_true, Bool.false_eq_true, if_false, hAg]
+          have := between_strict _ _ bt
+          exact ⟨(sat_upper ro rv rr _ hA hrv (above_WF _ _ hov)).mpr (by rw [hs1]; exact this.2),
+            (sat_lower oo ov orv _ hBg hov (above_WF _ _ hov)).mpr (by rw [hs2]; exact this.1), above_WF _ _ hov⟩
+    · have hA' : isLtOp ro = false := by simpa using hA
+      have hAg := isGt_of_ranged_not_lt hro hA'
+      have hBg : isGtOp oo = false := by simpa [hAg] using hgg
+      have hB : isLtOp oo = true := by cases oo <;> simp_all [isRanged, isLtOp, isGtOp]
+      rw [sat_upper oo ov orv _ hB hov hrv] at h1
+      rw [sat_lower ro rv rr _ hAg hrv hov] at h2
+      have bt : Between (isStrict ro) (isStrict oo) (rv, rr) (ov, orv) := ⟨h2, h1, fun a b c => h3 a b c⟩
+      cases hs1 : isStrict ro
+      · rw [hs1] at bt
+        simp only [Bool.not_false, if_true]
+        have := between_lower_end _ _ _ bt
+        exact ⟨(sat_lower ro rv rr _ hAg hrv hrv).mpr (by rw [hs1]; exact this.1),
+          (sat_upper oo ov orv _ hB hov hrv).mpr this.2, hrv⟩
+      · cases hs2 : isStrict oo
+        · rw [hs2] at bt
+          simp only [Bool.not_true, Bool.false_eq_true, if_false, Bool.not_false, if_true]
+          have := between_upper_end _ _ _ bt
+          exact ⟨(sat_lower ro rv rr _ hAg hrv hov).mpr this.1,
+            (sat_upper oo ov orv _ hB hov hov).mpr (by rw [hs2]; exact this.2), hov⟩
+        · rw [hs1, hs2] at bt
+          simp only [Bool.not_true, Bool.false_eq_true, if_false, hAg, if_true]
+          have := between_strict _ _ bt
+          exact ⟨(sat_lower ro rv rr _ hAg hrv (above_WF _ _ hrv)).mpr (by rw [hs1]; exact this.1),
+            (sat_upper oo ov orv _ hB hov (above_WF _ _ hrv)).mpr (by rw [hs2]; exact this.2), above_WF _ _ hrv⟩
+  · have hoo' : isRanged oo = false := by simpa using hoo
+    have hng := ranged_ne_glob hro
+    by_cases ht : oo = .tilde
+    · subst ht
+      simp only [rangedVs, rangedWitness, hoo', Bool.false_eq_true, if_false, if_true] at h ⊢
+      by_cases hm : vMatch ro rv rr ov orv = true
+      · simp only [hm, if_true]
+        refine ⟨?_, (sat_tilde ov orv _ hov hov).mpr rfl, hov⟩
+        unfold Sat; rw [← vMatch_eq_opSpec ro rv rr ov orv hng hrv hov]; exact hm
+      · simp only [hm, Bool.false_eq_true, if_false, Bool.and_eq_true] at h ⊢
+        obtain ⟨hg, hm2⟩ := h
+        have hsv : VK rv = VK ov := by
+          have : Sat (.tilde, ov, orv) (rv, rr) := by
+            unfold Sat; rw [← vMatch_eq_opSpec .tilde ov orv rv rr (by decide) hov hrv]; exact hm2
+          exact (sat_tilde ov orv _ hov hrv).mp this
+        refine ⟨(sat_lower ro rv rr _ hg hrv (above_WF _ _ hov)).mpr (Rel_of_LT ?_),
+          (sat_tilde ov orv _ hov (above_WF _ _ hov)).mpr rfl, above_WF _ _ hov⟩
+        apply (LT_sameV (a := (rv, rr)) (b := above ov rr) hsv).mpr
+        simp only [above, natOfDigits_toDigits]; omega
+    · by_cases hgl : oo = .glob
+      · subst hgl
+        simp only [rangedVs, rangedWitness, hoo', Bool.false_eq_true, if_false, reduceCtorEq, if_true] at h ⊢
+        by_cases hm : vMatch ro rv rr ov orv = true
+        · simp only [hm, if_true]
+          refine ⟨?_, (sat_glob ov orv _ hov hov).mpr (glob_own ov orv), hov⟩
+          unfold Sat; rw [← vMatch_eq_opSpec ro rv rr ov orv hng hrv hov]; exact hm
+        · simp only [hm, Bool.false_eq_true, if_false] at h ⊢
+          by_cases hz : natOfDigits orv = 0
+          · simp only [hz, ne_eq, not_true_eq_false, if_false] at h
+            by_cases hl : isLtOp ro = true
+            · simp only [hl, if_true]
+              refine ⟨(sat_upper ro rv rr _ hl hrv (below_WF _ hrv)).mpr (Rel_of_LT (below_lt rv rr)),
+                (sat_glob ov orv _ hov (below_WF _ hrv)).mpr ?_, below_WF _ hrv⟩
+              rw [glob_norev ov orv _ _ (below rv).2 hov (below_WF _ hrv) hz]
+              exact glob_below ov rv hov hrv h
+            · have hl' : isLtOp ro = false := by simpa using hl
+              simp only [hl', Bool.false_eq_true, if_false]
+              have hg := isGt_of_ranged_not_lt hro hl'
+              refine ⟨(sat_lower ro rv rr _ hg hrv (above_WF _ _ hrv)).mpr (Rel_of_LT (above_gt rv rr)),
+                (sat_glob ov orv _ hov (above_WF _ _ hrv)).mpr ?_, above_WF _ _ hrv⟩
+              rw [glob_norev ov orv _ _ [] hov (above_WF _ _ hrv) hz]
+              exact h
+          · simp [hz] at h
+      · -- `=` is excluded by the caller; nothing else is left
+        cases oo <;> simp_all [rangedVs, isRanged, isLtOp, isGtOp]
+
+end Pkgcore.C05
+
+namespace Pkgcore.C05
+open Pkgcore.C01 Pkgcore.C01.Spec Pkgcore.C04 Pkgcore.C04.Spec Pkgcore.C05.Spec Std
+open Pkgcore.C02 (Op Str verHashKey VKey CompK compK)
+
+attribute [local instance] lexOrd
+
+/-! ### `rangedVs`: completeness -/
+
+theorem rangedVs_complete (ro : Op) (rv : Ver) (rr : Str) (oo : Op) (ov : Ver) (orv : Str)
+    (hro : isRanged ro = true) (hll : (isLtOp ro && isLtOp oo) = false) (hgg : (isGtOp ro && isGtOp oo) = false)
+    (hoe : oo ≠ .eq) (hrv : WF rv) (hov : WF ov) (htil : oo = .tilde → natOfDigits orv = 0)
+    (x : Pt) (hx : WF x.1) (s1 : Sat (ro, rv, rr) x) (s2 : Sat (oo, ov, orv) x) :
+    rangedVs (ro, rv, rr) (oo, ov, orv) = true := by
+  have hng := ranged_ne_glob hro
+  by_cases hoo : isRanged oo = true
+  · apply (rangedVs_ranged_iff ro rv rr oo ov orv hro hoo hrv hov).mpr
+    by_cases hA : isLtOp ro = true
+    · have hB : isLtOp oo = false := by simpa [hA] using hll
+      have hBg := isGt_of_ranged_not_lt hoo hB
+      rw [sat_upper ro rv rr _ hA hrv hx] at s1
+      rw [sat_lower oo ov orv _ hBg hov hx] at s2
+      have bt := between_complete (isStrict oo) (isStrict ro) (ov, orv) (rv, rr) x s2 s1
+      refine ⟨(sat_lower oo ov orv _ hBg hov hrv).mpr bt.1, (sat_upper ro rv rr _ hA hrv hov).mpr bt.2.1, ?_⟩
+      intro a b c
+      have := bt.2.2 b a c.symm
+      simp only at this ⊢; omega
+    · have hA' : isLtOp ro = false := by simpa using hA
+      have hAg := isGt_of_ranged_not_lt hro hA'
+      have hBg : isGtOp oo = false := by simpa [hAg] using hgg
+      have hB : isLtOp oo = true := by cases oo <;> simp_all [isRanged, isLtOp, isGtOp]
+      rw [sat_lower ro rv rr _ hAg hrv hx] at s1
+      rw [sat_upper oo ov orv _ hB hov hx] at s2
+      have bt := between_complete (isStrict ro) (isStrict oo) (rv, rr) (ov, orv) x s1 s2
+      exact ⟨(sat_upper oo ov orv _ hB hov hrv).mpr bt.2.1, (sat_lower ro rv rr _ hAg hrv hov).mpr bt.1,
+        fun a b c => bt.2.2 a b c⟩
+  · have hoo' : isRanged oo = false := by simpa using hoo
+    by_cases ht : oo = .tilde
+    · subst ht
+      have hz := htil rfl
+      simp only [rangedVs, hoo', Bool.false_eq_true, if_false, if_true]
+      by_cases hm : vMatch ro rv rr ov orv = true
+      · simp [hm]
+      · simp only [hm, Bool.false_eq_true, if_false, Bool.and_eq_true]
+        have hvx : VK x.1 = VK ov := (sat_tilde ov orv x hov hx).mp s2
+        have hns : ¬ Sat (ro, rv, rr) (ov, orv) := by
+          unfold Sat; rw [← vMatch_eq_opSpec ro rv rr ov orv hng hrv hov]; exact hm
+        -- `ov-r0` is the least version with this value
+        have hle : LE (ov, orv) x := (LE_sameV (a := (ov, orv)) (b := x) hvx.symm).mpr (by simp only [hz]; omega)
+        by_cases hA : isLtOp ro = true
+        · rw [sat_upper ro rv rr _ hA hrv hx] at s1
+          exact absurd ((sat_upper ro rv rr _ hA hrv hov).mpr (Rel_of_LE_of_Rel hle s1)) hns
+        · have hA' : isLtOp ro = false := by simpa using hA
+          have hAg := isGt_of_ranged_not_lt hro hA'
+          rw [sat_lower ro rv rr _ hAg hrv hx] at s1
+          rw [sat_lower ro rv rr _ hAg hrv hov] at hns
+          have h1 : LE (ov, orv) (rv, rr) := (not_Rel.mp hns).le
+          have hv : VK rv = VK ov := sandwich_VK (a := (ov, orv)) (y := (rv, rr)) (c := x) h1 s1.le hvx.symm
+          refine ⟨hAg, ?_⟩
+          rw [vMatch_eq_opSpec .tilde ov orv rv rr (by decide) hov hrv]
+          exact (sat_tilde ov orv (rv, rr) hov hrv).mpr hv
+    · by_cases hgl : oo = .glob
+      · subst hgl
+        simp only [rangedVs, hoo', Bool.false_eq_true, if_false, reduceCtorEq, if_true]
+        by_cases hm : vMatch ro rv rr ov orv = true
+        · simp [hm]
+        · simp only [hm, Bool.false_eq_true, if_false]
+          have hns : ¬ Sat (ro, rv, rr) (ov, orv) := by
+            unfold Sat; rw [← vMatch_eq_opSpec ro rv rr ov orv hng hrv hov]; exact hm
+          have gx : verGlobMatch ov orv x.1 x.2 = true := (sat_glob ov orv x hov hx).mp s2
+          by_cases hz : natOfDigits orv = 0
+          · simp only [hz, ne_eq, not_true_eq_false, if_false]
+            -- both `x` and the glob's own version are matched by the revision-less glob; `rv-rr` lies between them
+            have gx0 : verGlobMatch ov [] x.1 x.2 = true := by rw [← glob_norev ov orv x.1 x.2 x.2 hov hx hz]; exact gx
+            have go0 : verGlobMatch ov [] ov orv = true := by
+              rw [← glob_norev ov orv ov orv orv hov hov hz]; exact glob_own ov orv
+            have key : verGlobMatch ov [] rv rr = true := by
+              by_cases hA : isLtOp ro = true
+              · rw [sat_upper ro rv rr _ hA hrv hx] at s1
+                rw [sat_upper ro rv rr _ hA hrv hov] at hns
+                exact glob_convex ov x (rv, rr) (ov, orv) hov hx hrv hov gx0 go0 s1.le (not_Rel.mp hns).le
+              · have hA' : isLtOp ro = false := by simpa using hA
+                have hAg := isGt_of_ranged_not_lt hro hA'
+                rw [sat_lower ro rv rr _ hAg hrv hx] at s1
+                rw [sat_lower ro rv rr _ hAg hrv hov] at hns
+                exact glob_convex ov (ov, orv) (rv, rr) x hov hov hrv hx go0 gx0 (not_Rel.mp hns).le s1.le
+            rw [← glob_norev ov [] rv rr [] hov hrv natOfDigits_nil]; exact key
+          · have := (glob_rev ov orv x.1 x.2 hov hx hz).mp gx
+            exact absurd ((sat_congr (ro, rv, rr) x (ov, orv) hrv hx hov this.symm).mp s1) hns
+      · cases oo <;> simp_all [isRanged, isLtOp, isGtOp]
+
+end Pkgcore.C05
